@@ -142,7 +142,10 @@ class URI(with_metaclass(URIType)):
 
 		if directory:
 			unsplit.append(u'')
-		self.path = u'/'.join(unsplit) or u'/'
+		normalized = u'/'.join(unsplit) or u'/'
+		if path.startswith(u'/') and not normalized.startswith(u'/'):
+			normalized = u'/%s' % (normalized, )  # '..' cannot remove the root of an absolute path (RFC 3986 Section 5.2.4)
+		self.path = normalized
 
 	def set(self, uri: Any) -> None:
 		if isinstance(uri, Unicode):
